@@ -86,6 +86,7 @@ _add(
 
 _add(
     "C16",
+    has_suite=True,
     rule="(a) random 8-40 operation sequences over {register, deregister, train, eval, module call, manual call with "
          "force / ignore_mode, enable-flag switches, delete + gc.collect, re-create} on a generic Hook (pre, post or "
          "both) and a StateHook subclass (pre or post) attached to an nn.Module / inferno.Module probe that logs the "
@@ -165,6 +166,7 @@ _add(
 
 _add(
     "C03",
+    has_suite=True,
     rule="trajectories of 40-200 steps for each of the 8 neuron classes with hyper-parameters drawn inside the documented "
          "domains (refractory period 0, dt, 2dt, 2.5dt, 3dt, 0.3 at dt 0.1; dt in {1,0.5,0.1,1.3}), float32 and float64, "
          "batch 1-4, shapes up to 3-D, per-step drive in {random, zero, +-1e6, negative, strong, near-threshold solved "
@@ -284,6 +286,7 @@ _add(
 
 _add(
     "C09",
+    has_suite=True,
     rule="every shipped trainer (STDP, triplet, MSTDP, MSTDPET, kernel, the six delay-adjusted weight / delay variants) x "
          "all four sign combinations of its learning rates on dense / direct / lateral / conv cells with random spike "
          "histories, reward signs (scalar and per-sample), reductions {sum, mean, amax}, with and without delays; a "
